@@ -33,6 +33,7 @@ WHAT = {
     "M5": "each argument's original text is step_text[start:end] for the start/end it stores",
     "M6": "the default matcher is restored after each step module",
     "M7": "step decorators for given/when/then/step in lower and title case",
+    "M9": "the parse-family matchers (parse, cfparse) share the one type registry register_type() writes",
     "M8": "each parse matcher builds its own parser from its pattern and its own custom types (no sharing across matchers)",
 }
 
@@ -104,11 +105,12 @@ def check_registration(chk, ix):
             st.frames = []
             new = st.alloc(HObj("MatcherTok", {"location": "loc", "pattern": "p"}, label="new definition"))
             exist = [st.alloc(HObj("ExistTok", {"kind": k_, "SCHEMA_AT_LOCATION": "schema"}, label="existing(%s)" % k_)) for k_ in existing]
+            compared = []
             stubs = {"make_step_matcher": lambda it, s, a, k, n: [(s, "val", new)],
                      "text": lambda it, s, a, k, n: [(s, "val", a[0])],
                      "StepRegistry.is_good_step_definition": lambda it, s, a, k, n, _g=good: [(s, "val", _g)],
-                     "StepRegistry.same_step_definition": lambda it, s, a, k, n: [(s, "val", s.obj([x for x in a if isinstance(x, Ref) and s.obj(x).clsname() == "ExistTok"][0]).fields["kind"] == "same")],
-                     "ExistTok.matches": lambda it, s, a, k, n: [(s, "val", s.obj(a[0]).fields["kind"] in ("matches", "same"))],
+                     "StepRegistry.same_step_definition": lambda it, s, a, k, n, _c=compared: (_c.extend(x for x in a if isinstance(x, str) and x != "loc"), [(s, "val", s.obj([x for x in a if isinstance(x, Ref) and s.obj(x).clsname() == "ExistTok"][0]).fields["kind"] == "same")])[1],
+                     "ExistTok.matches": lambda it, s, a, k, n, _c=compared: (_c.extend(x for x in a[1:] if isinstance(x, str)), [(s, "val", s.obj(a[0]).fields["kind"] in ("matches", "same"))])[1],
                      "ExistTok.describe": lambda it, s, a, k, n: [(s, "val", "existing")],
                      "MatcherTok.describe": lambda it, s, a, k, n: [(s, "val", "new")]}
             it = Interp(ix, stubs=stubs, name="add_step_definition")
@@ -136,7 +138,13 @@ def check_registration(chk, ix):
                         want = "ambiguous"
                         break
             got = "ambiguous" if (k == "raise" and v.clsname() == "AmbiguousStep") else ("append" if appended else ("ignore" if k == "val" and len(items) == len(exist) else "other:%s" % (v,)))
-            if got == want:
+            wrong_text = sorted(set(c for c in compared if c != "pattern text"))
+            if wrong_text:
+                _fail(chk, "M3", f, "existing definitions compared with %r" % (wrong_text,),
+                      "the existing definitions are compared with %r instead of the step text given to the decorator ('pattern text'): "
+                      "a matcher may rewrite its pattern (the re matcher anchors it), so overlapping definitions are no longer found "
+                      "ambiguous" % (wrong_text,), s.path)
+            elif got == want:
                 chk.ok("M3", {"definition_good": good, "existing": list(existing), "outcome": got}, nontrivial_key=(good, existing))
             else:
                 _fail(chk, "M3", f, "good=%s existing=%s -> %s" % (good, list(existing), got),
@@ -294,6 +302,37 @@ def check_module_glue(chk, ix):
         chk.ok("M7", {"decorators": sorted(types), "spellings": ["lower", "Title"]}, nontrivial_key="decorators")
     else:
         _fail(chk, "M7", g, "decorator types %s" % types, "step decorators are not set up for given/when/then/step in both spellings")
+
+
+def check_type_registry_sharing(chk, ix):
+    """M9 (sibling agreement): every parse-family matcher reads the one type registry that register_type writes."""
+    chk.rule("M9", WHAT["M9"])
+    pm = ix.cls("behave.matchers:ParseMatcher")
+    home = pm.lookup_const("TYPE_REGISTRY")
+    if home is None:
+        raise AnalysisError("anchor missing: ParseMatcher.TYPE_REGISTRY")
+    fam = [c for m in ix.modules.values() for c in m.classes.values() if pm in c.mro()]
+    for c in sorted(fam, key=lambda c_: c_.fullname):
+        chk.instance("M9")
+        lc = c.lookup_const("TYPE_REGISTRY")
+        if lc is not None and lc[0] is home[0]:
+            chk.ok("M9", {"matcher": c.name, "TYPE_REGISTRY": "the one defined in %s" % home[0].name}, nontrivial_key=c.fullname)
+        else:
+            chk.fail(Finding("M9", c.fullname, "%s has its own TYPE_REGISTRY" % c.name,
+                             "%s defines its own TYPE_REGISTRY: types registered with register_type() while another parse-family matcher "
+                             "is current are unknown to it (and the other way round), so '{x:MyType}' patterns stop compiling after "
+                             "use_step_matcher()" % c.name, file=c.module.relpath, line=c.node.lineno))
+    # register_type writes cls.TYPE_REGISTRY, the attribute __init__ reads as default
+    init = pm.methods["__init__"]
+    reg = ix.cls("behave.matchers:Matcher").lookup("register_type")
+    chk.instance("M9")
+    reads = any(isinstance(n, ast.Attribute) and n.attr == "TYPE_REGISTRY" for n in ast.walk(init.node))
+    writes = any(isinstance(n, ast.Call) and isinstance(n.func, ast.Attribute) and n.func.attr == "register_type" and
+                 isinstance(n.func.value, ast.Attribute) and n.func.value.attr == "TYPE_REGISTRY" for n in ast.walk(reg.node))
+    if reads and writes:
+        chk.ok("M9", {"register_type": "cls.TYPE_REGISTRY.register_type(...)", "ParseMatcher.__init__": "defaults custom_types to self.TYPE_REGISTRY"}, nontrivial_key="wiring")
+    else:
+        _fail(chk, "M9", reg, "register_type / __init__ wiring", "register_type does not write the TYPE_REGISTRY that ParseMatcher.__init__ uses as default")
 
 
 def check_parser_ownership(chk, ix):
